@@ -47,6 +47,7 @@ func c03Image(e *ssmEnv, point string) {
 	defer ln2.Close()
 	s2.NoSnapshotOnClose = true
 	s2.SnapshotThreshold = 1 << 40
+	s2.SnapshotReapThreshold = 1 << 20
 	s2.HeartbeatTimeout, s2.ElectionTimeout, s2.LeaderLeaseTimeout = 300*time.Millisecond, 300*time.Millisecond, 300*time.Millisecond
 	if err := s2.Open(); err != nil {
 		e.rep.Fail("crash-image-cannot-be-opened:"+point, fmt.Sprintf("history %v: %v", e.hist, err), map[string]interface{}{"history": e.hist, "point": point})
@@ -186,7 +187,7 @@ func c03History(t *testing.T, rep *vfReport, r *vfRng, nOps int) (ops, impl []st
 func TestVerifC03(t *testing.T) {
 	rep := vfNewReport("C03", "crash images of real single-node stores: generated histories of write requests (incl. non-idempotent updates), loads, raft-driven snapshots with/without log truncation, step-by-step snapshots (checkpoint / persist / install / fingerprint) and clean restarts; at generated points the data directory is copied as a kill -9 would leave it and a new store is opened on the copy; non-trivial = at least one crash image; distinct by history text")
 	defer rep.Write()
-	r := vfNewRng(3)
+	r := ssmRng(3)
 	n := vfScale(3, 40)
 	var allOps, allImpl [][]string
 	for h := 0; h < n; h++ {
@@ -235,6 +236,7 @@ func TestVerifC03Child(t *testing.T) {
 	defer ln.Close()
 	s.NoSnapshotOnClose = true
 	s.SnapshotThreshold = 1 << 40
+	s.SnapshotReapThreshold = 1 << 20
 	s.HeartbeatTimeout, s.ElectionTimeout, s.LeaderLeaseTimeout = 300*time.Millisecond, 300*time.Millisecond, 300*time.Millisecond
 	if err := s.Open(); err != nil {
 		t.Fatalf("child open: %v", err)
@@ -310,7 +312,7 @@ func c03ReadJournal(dir string) (ready bool, acked int, snaps int) {
 func TestVerifC03Kill(t *testing.T) {
 	rep := vfNewReport("C03", "kill -9 of a child rqlite store process running a seeded loop of write requests (plain/transaction, incl. non-idempotent updates) with snapshots after ~30% of them, killed 100-2500 ms after it reported ready, then reopened in-process; two kill/reopen rounds per directory; non-trivial = at least one acknowledged write before the kill; distinct by (seed, kill delay, acknowledged count)")
 	defer rep.Write()
-	r := vfNewRng(303)
+	r := ssmRng(303)
 	n := vfScale(2, 25)
 	var allOps, allImpl [][]string
 	for h := 0; h < n; h++ {
@@ -355,6 +357,7 @@ func TestVerifC03Kill(t *testing.T) {
 			s, ln := mustNewStoreAtPathsLn(id, dir, false)
 			s.NoSnapshotOnClose = true
 			s.SnapshotThreshold = 1 << 40
+	s.SnapshotReapThreshold = 1 << 20
 			s.HeartbeatTimeout, s.ElectionTimeout, s.LeaderLeaseTimeout = 300*time.Millisecond, 300*time.Millisecond, 300*time.Millisecond
 			hist := fmt.Sprintf("seed=%d round=%d from=%d kill-after=%s acked=%d snapshots=%d", seed, round, applied, delay, ackedCount, snaps)
 			if err := s.Open(); err != nil {
